@@ -123,18 +123,18 @@ KPs(full, verb) == IF verb = c_c THEN {1} ELSE IF full THEN 1..Len(POpts) ELSE K
 
 \* ---- runs: several calls in one interpreter.  A run is a sequence of [f |-> format, a |-> arguments].
 St(str) == VStr(str)
-In(str) == VStrnum(str)
+Inp(str) == VStrnum(str)
 Hello == <<c_h, c_e, c_l, c_l, c_o>>
 Call(f, a) == [f |-> f, a |-> a]
 \* one format on arguments of every kind, number first / input text first
 KindRun(f, verb) ==
   LET num == IF verb \in FloatVerbs THEN VNum(Dec(FALSE, <<6, 5, 5>>, 0 - 1)) ELSE N(65)
-  IN { << Call(f, <<num>>), Call(f, <<St(<<D6, D5>>)>>), Call(f, <<In(<<D6, D5>>)>>), Call(f, <<In(<<D6, D5, c_a, c_b, c_c>>)>>), Call(f, <<num>>) >>,
-       << Call(f, <<In(<<SP, D6, D5, SP>>)>>), Call(f, <<St(<<c_a, c_b, c_c>>)>>), Call(f, <<In(<<c_a, c_b, c_c>>)>>), Call(f, <<num>>), Call(f, <<In(<<D6, DOT, D5, c_e, D1>>)>>) >> }
+  IN { << Call(f, <<num>>), Call(f, <<St(<<D6, D5>>)>>), Call(f, <<Inp(<<D6, D5>>)>>), Call(f, <<Inp(<<D6, D5, c_a, c_b, c_c>>)>>), Call(f, <<num>>) >>,
+       << Call(f, <<Inp(<<SP, D6, D5, SP>>)>>), Call(f, <<St(<<c_a, c_b, c_c>>)>>), Call(f, <<Inp(<<c_a, c_b, c_c>>)>>), Call(f, <<num>>), Call(f, <<Inp(<<D6, DOT, D5, c_e, D1>>)>>) >> }
 Deco(verb) == { <<PCT, verb>>, <<PCT, verb, BAR>>, <<LBRK, PCT, D5, verb, RBRK>>, <<c_x, EQ, PCT, MINUS, D4, verb, BAR>> }
 KindRuns == UNION { KindRun(f, verb) : f \in Deco(verb), verb \in Verbs }
 \* two formats that differ only in the conversion letter; the first one is used first
-SibArgs(verb) == IF verb \in {c_c, c_s} THEN {N(65), St(Hello), In(<<D7, D2>>)} ELSE {N(3), N(0 - 3), VNum(Dec(TRUE, <<2, 5>>, 0 - 1)), In(<<MINUS, D7>>)}
+SibArgs(verb) == IF verb \in {c_c, c_s} THEN {N(65), St(Hello), Inp(<<D7, D2>>)} ELSE {N(3), N(0 - 3), VNum(Dec(TRUE, <<2, 5>>, 0 - 1)), Inp(<<MINUS, D7>>)}
 SibPairs == { <<c_c, c_s>>, <<c_s, c_c>>, <<c_u, c_d>>, <<c_d, c_u>>, <<c_i, c_d>>, <<c_d, c_i>>, <<c_u, c_i>>, <<c_i, c_u>>, <<c_x, C_X>>, <<c_e, C_E>>, <<c_g, c_f>> }
 SibFmt(shape, verb) == CASE shape = 1 -> <<PCT, verb>> [] shape = 2 -> <<PCT, verb, BAR>> [] shape = 3 -> <<LBRK, PCT, D5, verb, RBRK>>
                          [] shape = 4 -> <<PCT, verb, LF>> [] shape = 5 -> <<PCT, MINUS, D3, verb, PCT, PCT>>
@@ -142,7 +142,7 @@ SibRuns == { << Call(SibFmt(sh, pr[1]), <<a1>>), Call(SibFmt(sh, pr[2]), <<a2>>)
                sh \in 1..5, pr \in SibPairs, a1 \in SibArgs(pr[1]), a2 \in SibArgs(pr[1]) }
 \* a run ended by a run-time error: the calls before it have printed
 ErrRuns == { << Call(<<PCT, c_d>>, <<N(1)>>), Call(<<PCT, c_d, SP, PCT, c_d>>, <<N(1)>>), Call(<<PCT, c_d>>, <<N(2)>>) >>,
-             << Call(<<PCT, c_c>>, <<In(<<D6, D5>>)>>), Call(<<PCT, c_z>>, <<N(1)>>) >> }
+             << Call(<<PCT, c_c>>, <<Inp(<<D6, D5>>)>>), Call(<<PCT, c_z>>, <<N(1)>>) >> }
 Seqs == KindRuns \cup SibRuns \cup ErrRuns
 \* the prediction for a run: the result of every call up to and including the first error
 RECURSIVE RunResults(_, _, _)
@@ -153,7 +153,6 @@ RunResults(calls, k, chars) ==
 RunOpen(calls) == \E k \in 1..Len(calls) : HasOpenArg(calls[k].a)
 
 \* ---- print
-T(str) == str
 OFmtTexts == { <<PCT, DOT, D6, c_g>>, <<PCT, DOT, D2, c_f>>, <<PCT, DOT, D3, c_e>>, <<PCT, DOT, D3, c_g>>,
                <<PCT, c_g>>, <<PCT, C_G>>,                       \* no precision: C's default is 6
                <<PCT, D8, DOT, D1, c_f>>,                         \* blanks in front (quoted in CSV output)
@@ -168,8 +167,8 @@ Frac == VNum(Dec(FALSE, <<3, 1, 4, 1, 5, 9, 2, 6, 5>>, 0 - 8))
 PrintLists ==
   { <<VNum(n1)>> : n1 \in PrintNums } \cup { <<VNum(n1), St(<<c_s>>), VNum(n1)>> : n1 \in PrintNums } \cup
   { <<St(<<c_a, COMMA, c_b>>), Frac>>, <<St(<<SP, c_a>>), Frac, St(<<c_q, DQ, c_q>>)>>, <<Frac, VNull, N(7)>>, <<VNull>>, <<St(<<>>)>>,
-    <<In(<<D3, DOT, D0>>), Frac>>, <<In(<<SP, D4, D2, SP>>), In(<<D0, DOT, D1, D0>>), Frac>>, <<In(<<D1, c_e, D3>>), St(<<D1, c_e, D3>>), N(1000)>>,
-    <<In(<<D0, c_x, D4, D1>>), In(<<c_a, c_b, c_c>>), VNum(Dec(TRUE, <<2, 5>>, 0 - 1))>>, <<St(<<D3, DOT, D1, D4, D1, D5, D9, D2, D6, D5>>), Frac>> }
+    <<Inp(<<D3, DOT, D0>>), Frac>>, <<Inp(<<SP, D4, D2, SP>>), Inp(<<D0, DOT, D1, D0>>), Frac>>, <<Inp(<<D1, c_e, D3>>), St(<<D1, c_e, D3>>), N(1000)>>,
+    <<Inp(<<D0, c_x, D4, D1>>), Inp(<<c_a, c_b, c_c>>), VNum(Dec(TRUE, <<2, 5>>, 0 - 1))>>, <<St(<<D3, DOT, D1, D4, D1, D5, D9, D2, D6, D5>>), Frac>> }
 OfsTexts == { <<SP>>, <<MINUS>> }
 \* the class of a print line, for the failure signature
 HasFraction(args) == \E j \in 1..Len(args) : args[j].tag = "num" /\ ~InInt64(args[j].n)
